@@ -661,6 +661,100 @@ async def run_session(case):
     return exp_list, obs_list, info
 
 
+
+# ---- overlapping requests on two shell connections ----------------------------------------
+
+
+def gen_overlap_case(R):
+    """Connection A runs a cell that suspends (task.sleep); while it sleeps, connection B sends 1-3 quick requests."""
+    val = R.choice(["7 * 6", "'a' + 'b'", "[1, 2] + [3]", "w = 5", "raise ValueError('late')", "undefined_name_zz", "print('out')\n5", "print('p1')\nprint('p2')",
+                    "print('before')\nraise KeyError('k')"])
+    b_ops = []
+    for _ in range(R.int(1, 3)):
+        t = R.choice(["kernel_info_request", "complete_request", "is_complete_request", "comm_info_request"])
+        content = {"kernel_info_request": {}, "complete_request": {"code": "pri", "cursor_pos": 3}, "is_complete_request": {"code": "x = 1"},
+                   "comm_info_request": {}}[t]
+        b_ops.append({"t": t, "content": content, "ids": [R.choice(["b1", "beef", "0b0b0b"])], "ascii": True})
+    return {"part": "overlap", "key": R.choice(["key-a1", "0123456789abcdef"]), "drain_yields": R.bool(),
+            "a": {"t": "execute_request", "content": {"code": f"task.sleep({R.choice([0.02, 0.04])})\n{val}"}, "ids": [R.choice(["a1", "aaaa"])], "ascii": True},
+            "b": b_ops, "val": val}
+
+
+async def run_overlap(case):
+    """Every reply and broadcast must carry the header of the request it belongs to, also when the requests of two
+    connections overlap; A's outcome is that of the cell without the sleep."""
+    model = CellModel()
+    exp, obs = [], []
+    async with kh.Session(case["key"], mode="listen", drain_yields=case.get("drain_yields", False), n_iopub=1) as s:
+        rd2 = kh.CountingReader()
+        wr2 = kh.FakeWriter(s.wire, "shell2", s.drain_yields)
+        ch2 = kh.Channel(s.wire, "shell2", s.key, greeting=True)
+        t2 = asyncio.create_task(s.kernel.shell_listen(rd2, wr2))
+        s.tasks.append(t2)
+        lay = kh.Layout()
+        lay.add_command(b"READY", [(b"Socket-Type", b"DEALER"), (b"Identity", b"")])
+        await kh.feed_fragments(rd2, kh.peer_greeting() + bytes(lay.data), [10, 64])
+        await s.quiesce()
+        for ch in [s.shell, ch2] + [c for _, _, c in s.iopub]:
+            ch.new_messages()
+
+        def wire_of(i, op):
+            frames, header = request_frames(s.key, i, op)
+            lay = kh.Layout()
+            lay.add_multipart(frames)
+            return bytes(lay.data), header, kh.split_wire(frames)[0]
+
+        data_a, hdr_a, ids_a = wire_of(0, case["a"])
+        await kh.feed_fragments(s.shell_reader, data_a, [])
+        await s.quiesce()
+        hdrs_b = []
+        for k, op in enumerate(case["b"]):
+            data_b, hdr_b, ids_b = wire_of(100 + k, op)
+            hdrs_b.append((op, hdr_b, ids_b))
+            await kh.feed_fragments(rd2, data_b, [])
+            await s.quiesce()
+        overlapped = len(s.shell.items()) == s.shell.seen_items  # A has not been answered yet: the requests really overlap
+        for _ in range(400):
+            if len(s.shell.items()) > s.shell.seen_items:
+                break
+            await asyncio.sleep(0.005)
+        await s.quiesce()
+        await asyncio.sleep(0.01)
+        await s.quiesce()
+        shell_a = s.shell.new_messages()
+        shell_b = ch2.new_messages()
+        iopub = s.iopub[0][2].new_messages()
+        seen_ids, seen_pub = set(), set()
+        # expected / observed for A
+        op_a = dict(case["a"], content={"code": case["val"]})  # the sleep returns None and prints nothing
+        e = expected_for(op_a, hdr_a, ids_a, model, 1)
+        seq, text, bracket, stray_a, busy_gi, idle_gi = summarize_iopub(case["a"], [x for x in iopub if x[1].get("parent") == hdr_a], hdr_a, s.name, seen_pub)
+        for row in seq:
+            if row[0] == "execute_input":
+                row[2] = True  # the code echoed is the cell as sent (with the sleep)
+        o = {"valid": True, "hang": False, "shell": [summarize_reply(case["a"], m, hdr_a, seen_ids, []) for _, m in shell_a], "iopub": [seq], "stdout": [text],
+             "stdout_bracketed": bracket, "order_ok": True, "stray": stray_a, "globals": s.user_globals()}
+        for sh in o["shell"]:
+            c = sh.get("content")
+            if isinstance(c, dict) and isinstance(c.get("evalue"), str):
+                c["evalue"] = c["evalue"].replace(s.name, "<cell>")
+        e["who"] = o["who"] = "A"
+        exp.append(e)
+        obs.append(o)
+        # B: one reply each, in order, own header; own busy/idle pair
+        for k, (op, hdr_b, ids_b) in enumerate(hdrs_b):
+            eb = expected_for(op, hdr_b, ids_b, CellModel(), 1)
+            mine = [m for _, m in shell_b if m.get("parent") == hdr_b]
+            seqb, textb, brb, strayb, _, _ = summarize_iopub(op, [x for x in iopub if x[1].get("parent") == hdr_b], hdr_b, s.name, seen_pub)
+            ob = {"who": f"B{k}", "shell": [summarize_reply(op, m, hdr_b, seen_ids, []) for m in mine], "iopub": seqb}
+            exp.append({"who": f"B{k}", "shell": eb["shell"], "iopub": eb["iopub"][0]})
+            obs.append(ob)
+        known = [hdr_a] + [h for _, h, _ in hdrs_b]
+        strays = [m.get("header", {}).get("msg_type") for _, m in shell_a + shell_b + iopub if m.get("parent") not in known]
+        exp.append({"unattributed": []})
+        obs.append({"unattributed": strays})
+    return exp, obs, {"nontrivial": overlapped, "skipped_shapes": []}
+
 # ---- generators -------------------------------------------------------------------------
 
 
@@ -878,7 +972,12 @@ class C19(ModelCheck):
     def exhaustive_cases(self, tier):
         return exhaustive_frame_cases() + exhaustive_session_cases(tier)
 
+    def regress_cases(self):
+        return self.fixed_regress()
+
     def gen(self, R):
+        if R.bool(1, 16):
+            return gen_overlap_case(R)
         if R.bool():
             return gen_frames_case(R)
         return gen_session_case(R)
@@ -908,6 +1007,9 @@ class C19(ModelCheck):
             if any(op["op"] == "cmd" for op in case["ops"]):
                 classes.append("frame-command")
             return {"expected": exp, "observed": obs, "nontrivial": bool(info["nontrivial"]), "classes": classes, "detail": info}
+        if case["part"] == "overlap":
+            exp, obs, info = await asyncio.wait_for(run_overlap(case), 120)
+            return {"expected": exp, "observed": obs, "nontrivial": bool(info["nontrivial"]), "classes": ["overlap"] + sorted({"req-" + op["t"] for op in case["b"]}), "detail": info}
         exp, obs, info = await asyncio.wait_for(run_session(case), 120)
         classes = ["session", "session-" + case["mode"]] + ["known-shape:" + x for x in sorted(set(info["skipped_shapes"]))]
         classes += sorted({"req-" + op["t"] for op in case["ops"]})
@@ -921,6 +1023,11 @@ class C19(ModelCheck):
                 return "frame|wire-not-canonical"
             kind = "tail" if exp["reads"] == obs["reads"] else "reads"
             return f"frame|{case['enc']}|{kind}|{obs['tail'] if isinstance(obs['tail'], str) else 'extra'}"
+        if case["part"] == "overlap":
+            for e, o in zip(exp, obs):
+                if e != o:
+                    return f"overlap|{e.get('who', 'unattributed')}|" + "+".join(sorted(k for k in set(e) | set(o) if e.get(k) != o.get(k)))[:60]
+            return "overlap|length"
         for e, o in zip(exp, obs):
             if e != o:
                 fields = sorted(k for k in set(e) | set(o) if e.get(k) != o.get(k))
